@@ -413,9 +413,41 @@ struct BoxApi {
 };
 template <int N> uint64_t box_emplace(uint64_t serial) { return babylon::DepositBox<Item<N>>::instance().emplace(serial).version_and_value; }
 template <int N> bool box_take(uint64_t id, void (*cb)(ItemBase*, void*), void* ctx) {
+  using Acc = typename babylon::DepositBox<Item<N>>::Accessor;
   auto acc = babylon::DepositBox<Item<N>>::instance().take(babylon::VersionedValue<uint32_t>(id));
   if (!acc) return false;
-  cb(&*acc, ctx);
+  // what a client does with the accessor it won is varied by the id (plan
+  // independent, deterministic): keep it / move-construct it elsewhere /
+  // move-assign it into an empty one / park it on the heap past the callback.
+  // Exactly one accessor may end up owning the item (and release the slot).
+  switch ((id ^ (id >> 32) ^ (id >> 7)) & 3) {
+    case 0: cb(&*acc, ctx); break;
+    case 1: {
+      Acc b(std::move(acc));
+      if (acc) fail("api", "accessor-move", "a moved-from DepositBox accessor (id %#llx) still owns the item: two owners will release one slot", (unsigned long long)id);
+      if (!b) fail("lost", "accessor-move", "move-constructed DepositBox accessor (id %#llx) is empty", (unsigned long long)id);
+      cb(&*b, ctx);
+      probe("accessor_move_constructed");
+      break;
+    }
+    case 2: {
+      Acc b;
+      b = std::move(acc);
+      if (acc) fail("api", "accessor-move-assign", "after move assignment into an empty accessor the source (id %#llx) still owns the item", (unsigned long long)id);
+      if (!b) fail("lost", "accessor-move-assign", "move-assigned DepositBox accessor (id %#llx) is empty", (unsigned long long)id);
+      cb(&*b, ctx);
+      probe("accessor_move_assigned");
+      break;
+    }
+    default: {
+      Acc* h = new Acc(std::move(acc));
+      if (acc) fail("api", "accessor-move", "a moved-from DepositBox accessor (id %#llx) still owns the item: two owners will release one slot", (unsigned long long)id);
+      cb(&**h, ctx);
+      delete h;
+      probe("accessor_parked_on_heap");
+      break;
+    }
+  }
   return true;
 }
 template <int N> ItemBase* box_take_released(uint64_t id) { return babylon::DepositBox<Item<N>>::instance().take_released(babylon::VersionedValue<uint32_t>(id)); }
